@@ -413,10 +413,11 @@ func c09run(o c09opts) (sig, what string, seen map[string]int, panics []string) 
 			_, _ = dyn.Resource(cmGVR).Namespace("n1").Update(ctx, ob, metav1.UpdateOptions{})
 			hub.Notify(cmGVR, "update", old, ob)
 		})
-		step(func() { // Deleted
-			old, _ := dyn.Resource(cmGVR).Namespace("n1").Get(ctx, "a", metav1.GetOptions{})
+		step(func() { // Deleted: the notification carries the object's final state, which nobody
+			// has seen before (an API server sends it like that when the last finalizer goes)
+			final := cmObj("n1", "a", 3)
 			_ = dyn.Resource(cmGVR).Namespace("n1").Delete(ctx, "a", metav1.DeleteOptions{})
-			hub.Notify(cmGVR, "delete", nil, old)
+			hub.Notify(cmGVR, "delete", nil, final)
 		})
 		step(func() { schedulemanager.ZZRunJobs(fx.op.ScheduleManager) })
 		webhooks("u1")
